@@ -135,6 +135,11 @@ type SDef struct {
 	// SharedFeat: feature sets with equal contents are one shared Go map (as applications do when
 	// they reuse one FeatureSet variable for a type and its fields).
 	SharedFeat bool `json:"shared_feat,omitempty"`
+	// EmptyContainers: where the definition has nothing to put into a map the real definition gets an
+	// empty but non-nil map instead of nil (RequiredFeatures: NewFeatureSet() of a computed empty
+	// list; Arguments: map[string]*InputValueDefinition{}): still a mutable container that a clone
+	// must not share.
+	EmptyContainers bool `json:"empty_containers,omitempty"`
 }
 
 var builtinScalars = []string{"Int", "Float", "String", "Boolean", "ID"}
@@ -583,6 +588,7 @@ func genSDef(r *hx.Rand, o genOpts) *SDef {
 	g := &gen{r: r, o: o, d: &SDef{}, feat: []string{"fa", "fb", "fc"}, tfeat: map[string][]string{}, inputRank: map[string]int{}, complete: map[string]bool{}}
 	d := g.d
 	d.SharedFeat = r.Bool()
+	d.EmptyContainers = r.Chance(1, 3)
 	small := o.Small
 	cnt := func(lo, hi int) int {
 		if small && hi > 2 {
